@@ -5,6 +5,7 @@ import (
 	"go/ast"
 	"go/token"
 	"go/types"
+	"regexp"
 	"sort"
 	"strings"
 
@@ -590,9 +591,10 @@ func c17lookup(c *an.Ctx) {
 		info := f.Info()
 		// bindings under the lookup flag: record (target index, bound value) with the facts at that point
 		type bind struct {
-			target int
-			value  string
-			node   ast.Node
+			target     int
+			value      string
+			node       ast.Node
+			targetExpr string // when target < 0: resolved per state through the helper-parameter bindings
 		}
 		var binds []bind
 		var nodes []ast.Node
@@ -602,21 +604,34 @@ func c17lookup(c *an.Ctx) {
 				if len(s.Lhs) == 1 {
 					if ix, ok := s.Lhs[0].(*ast.IndexExpr); ok && p.FieldKey(info, ix.X) == "scope.variables" {
 						str := an.Str(ix.Index)
+						found := false
 						for i := 0; i < 2; i++ {
 							if strings.Contains(str, fmt.Sprintf("set.Left[%d]", i)) {
-								binds = append(binds, bind{i, an.Str(s.Rhs[0]), s})
+								binds = append(binds, bind{i, an.Str(s.Rhs[0]), s, ""})
 								nodes = append(nodes, s)
+								found = true
 							}
+						}
+						if !found && p.OwnerFn(s.Pos()) != f {
+							// inside a helper the list was merged into: which target this is depends on the call site
+							binds = append(binds, bind{-1, an.Str(s.Rhs[0]), s, str})
+							nodes = append(nodes, s)
 						}
 					}
 				}
 			case *ast.CallExpr: // st.executeSet(set.Left[i], X)
 				if an.CalleeName(info, s) == "(*jet.Runtime).executeSet" && len(s.Args) == 2 {
+					found := false
 					for i := 0; i < 2; i++ {
 						if an.Str(s.Args[0]) == fmt.Sprintf("set.Left[%d]", i) {
-							binds = append(binds, bind{i, an.Str(s.Args[1]), s})
+							binds = append(binds, bind{i, an.Str(s.Args[1]), s, ""})
 							nodes = append(nodes, s)
+							found = true
 						}
+					}
+					if !found && p.OwnerFn(s.Pos()) != f {
+						binds = append(binds, bind{-1, an.Str(s.Args[1]), s, an.Str(s.Args[0])})
+						nodes = append(nodes, s)
 					}
 				}
 			}
@@ -635,8 +650,26 @@ func c17lookup(c *an.Ctx) {
 		pr := p.ProbeFn(f, nodes, an.Hooks{PreAssign: func(x *an.Explorer, lhs, rhs ast.Expr, stmt ast.Node, st *an.State) {
 			if id, ok := an.Unparen(lhs).(*ast.Ident); ok && rhs != nil {
 				st.Set("bv:"+id.Name, boolConst(rhs))
+				// bindings of a helper's parameters: which target, which value
+				st.Set("tgt:"+id.Name, "")
+				for i := 0; i < 2; i++ {
+					if strings.Contains(an.Str(rhs), fmt.Sprintf("set.Left[%d]", i)) {
+						st.Set("tgt:"+id.Name, fmt.Sprint(i))
+					}
+				}
+				st.Set("al:"+id.Name, "")
+				if rid, ok := an.Unparen(rhs).(*ast.Ident); ok && rid.Name != id.Name {
+					st.Set("al:"+id.Name, rid.Name)
+					if t := st.Get("tgt:" + rid.Name); t != "" {
+						st.Set("tgt:"+id.Name, t)
+					}
+					if bv := st.Get("bv:" + rid.Name); bv != "" {
+						st.Set("bv:"+id.Name, bv)
+					}
+				}
 			}
 		}})
+		identRe := regexp.MustCompile(`[A-Za-z_][A-Za-z_0-9]*`)
 		c.States += pr.X.Visited
 		okFirst, okTrue, okFalse := false, false, false
 		bad := ""
@@ -650,8 +683,25 @@ func c17lookup(c *an.Ctx) {
 		for _, b0 := range binds {
 			for _, st := range pr.At[b0.node] {
 				b := b0
+				if b.target < 0 {
+					for _, w := range identRe.FindAllString(b.targetExpr, -1) {
+						if t := st.Get("tgt:" + w); t == "0" || t == "1" {
+							b.target = int(t[0] - '0')
+						}
+					}
+					if b.target < 0 {
+						continue // a target of the plain multi-assignment form
+					}
+				}
 				if carried := st.Get("bv:" + b.value); carried != "" {
 					b.value = carried
+				}
+				for k := 0; k < 3; k++ { // the value handed down through helper parameters
+					if a := st.Get("al:" + b.value); a != "" {
+						b.value = a
+					} else {
+						break
+					}
 				}
 				lookup := false
 				for k, v := range st.Facts {
